@@ -706,7 +706,13 @@ class _Exporter:
             result.append(line)
 
         opset_name = self._make_opset_name(funproto.domain, 1)
-        add_line(f"@script({opset_name})")
+        # With use_operators a body may consist of operators only: name the default opset.
+        default_opset = (
+            f", default_opset={self._make_opset_name('', opsets[''])}"
+            if self.use_operators and "" in opsets
+            else ""
+        )
+        add_line(f"@script({opset_name}{default_opset})")
         fun_name = self._make_callee_name(funproto.domain, 1, funproto.name)
         fun_sig = self._translate_function_signature(funproto)
         add_line(f"def {fun_name}{fun_sig}")
@@ -739,7 +745,13 @@ class _Exporter:
         else:
             indent_level = 1
             indent = ""
-        add(f"{indent}@script()")
+        # With use_operators a body may consist of operators only: name the default opset.
+        default_opset = (
+            f"default_opset={self._make_opset_name('', opsets[''])}"
+            if self.use_operators and "" in opsets
+            else ""
+        )
+        add(f"{indent}@script({default_opset})")
         add(f"{indent}def {function_name}{_translate_signature(graph.input, graph.output)}")
         indent = indent + _SINGLE_INDENT
         doc = graph.doc_string
